@@ -75,9 +75,12 @@ P["C05"] = dict(
     obligations=ob("JSight.Props.C05",
         ("Props.C05.C05_check_iff_rfc", "for all byte strings: scanner-model check (strict) = RFC 8259 recogniser accepts"),
         ("Props.C05.C05_trailing", "for all byte strings: check with trailing allowed = recogniser has read one complete value when it first cannot continue"),
-        ("Props.C05.C05_grammar_accepted", "every text the RFC 8259 grammar generates (token grammar, any layout, any depth) is accepted")),
+        ("Props.C05.C05_grammar_accepted", "every text the RFC 8259 grammar generates (token grammar, any layout, any depth) is accepted"),
+        ("Props.C05.C05_check_iff_grammar", "strict Check accepts exactly ws value ws of the RFC 8259 grammar (both directions; unbounded length and depth)"),
+        ("Props.C05.C05_machines_agree", "the span-carrying and the span-free model of the JSON scanner accept the same byte strings (both modes)"),
+        ("Props.C05.C05_checkS_iff_rfc", "Document.Check as modelled with positions = RFC recogniser")),
     runs=[{"cmd": ["json-tprod"]}, {"cmd": ["json-exh"]}, {"cmd": ["json-diff"]}],
-    assumptions=["the RFC recogniser (150 lines) is the reading of 'is a JSON text'; validated against encoding/json.Valid on the exhaustive stream"],
+    assumptions=["the RFC 8259 grammar on byte classes (RfcG.GTok / GValid, StrBody, NumTok.WF: ~60 lines) is the reading of 'is a JSON text'; the recogniser is proved equivalent to it and additionally validated against encoding/json.Valid on the exhaustive stream"],
     level_text="Proof: for every byte string the scanner model's Check (strict and trailing modes) equals an independently written RFC 8259 recogniser (simulation proof, unbounded length and depth). The model is tied to the code on every run by product-state exploration of (implementation state, model state) over all 256 next bytes, bounded-exhaustive comparison of Check with model, spec and encoding/json, and a mutation/generation differential.",
     level_note="Trusted: Lean kernel, axioms {propext}; the recogniser as the reading of RFC 8259 (validated against encoding/json.Valid); model-code tie is validation (T-prod to nesting depth 4/6, exhaustive strings to length 5/6), not extraction.",
     technique="Lean 4 simulation proof (scanner model = RFC recogniser) + product-state correspondence with the Go scanner")
@@ -104,6 +107,8 @@ P["C07"] = dict(
     tgen=[{"cmd": ["tgen-errors", "{LEAN}/JSight/Generated/ErrorTable.lean"]}],
     obligations=ob("JSight.Props.C07",
         ("Props.C07.C07_json_no_crash", "JSON scanner model never reaches a runtime-panic site, all byte strings, both modes"),
+        ("Props.C07.C07_enum_no_crash", "enum-rule scanner model: for every byte string no stack underflow / mismatched closer / fuel exhaustion — every error is structured"),
+        ("Props.C07.C07_enum_len_no_crash", "the same for the enum scanner's Length"),
         ("Props.C07.C07_render_total", "Error() rendering total inside the content")) + ob("JSight.Tie.Errors",
         ("Gen.C07_format_sites", "every errors.Format site passes as many arguments as the template has placeholders (regenerated table)"),
         ("Gen.C07_bare_sites", "every bare error code used as an error value has a placeholder-free template"),
